@@ -368,7 +368,7 @@ CAST_DISPOSITIONS = {
     "compile_expression:Factorial:expr->u16": ("witness", "`3` followed by 65536 `!` — order wraps to 0, math::factorial panics `assertion failed: order >= 1` (findings/cast_witnesses.py factorial)"),
     "compile_expression:BuildList:len(elements)->u16": ("witness", "`let x = 1` then `len([x, x, … 65536 times])` prints 0 (findings/cast_witnesses.py buildlist)"),
     "compile_expression:GetUpvalue:index_in(name)->u16": ("witness", "`let a0 = 1`, `let a1 = 2`, `let a2 = a1` … `let a65536 = a65535`, then `a65536` prints 1 instead of 2 (findings/cast_witnesses.py upvalue; ~9 min)"),
-    "current_offset:len(current_chunk_index)->u16": ("witness", "`let x = 5`, 16400 lines `x`, then `if true then 111 else 222`: the jump offset wraps, the VM panics with index out of bounds (findings/cast_witnesses.py offset)"),
+    "current_offset:len(current_chunk_index)->u16": ("witness", "`let x = 5`, 16400 lines `x`, then `if true then 111 else 222`: the jump offset wraps, the VM panics with index out of bounds (findings/cast_witnesses.py offset; a realistic form found independently by two hunting agents: a file of 16000 lines `1` followed by `print(if true then \"T\" else \"F\")` prints nothing more and exits 0 — after 64 KiB of top-level bytecode every `if` kills the rest of the session silently)"),
     "add_constant:len(constants)->u16": ("witness", "`len([1, 1, … 65536 literals])` panics `assertion failed: self.constants.len() <= u16::MAX` (findings/cast_witnesses.py constants)"),
     "add_ffi_call_args:len(ffi_call_args)->u16": ("witness", "`let x = 1` then 65536 lines `sin(x)` panics `assertion failed: self.ffi_call_args.len() <= u16::MAX` (findings/cast_witnesses.py fficallargs)"),
     "add_string:len(strings)->u16": ("witness", "`let x = 1` then 65537 lines `type(x)` panics `assertion failed: self.strings.len() <= u16::MAX` (findings/cast_witnesses.py addstring)"),
